@@ -7,7 +7,8 @@ SCHED = "redun/scheduler.py"
 LIM = Map(STR, INT)
 HELD = Arr(REF, Opt(LIM))
 
-P_HANDLER = "held[job] == (None if job.was_cached else Some(limits_of(job)))"
+# link between the ghost holdings and the code's own belief that a job must give units back
+P_HANDLER = "held[job] == (Some(limits_of(job)) if job.holds_limits else None)"
 SAFE = "forall(k, Str, self.limits_used[k] <= mapget(self.limits, k, 1))"
 
 contracts = {
@@ -46,18 +47,18 @@ contracts = {
     requires=[P_HANDLER, SAFE]),
  "Scheduler._done_job_main_thread": dict(where=f"{SCHED}:Scheduler._done_job_main_thread",
     params={"self": REF, "job": REF, "result": OBJ, "job_tags": OBJ}, ghost={"held": HELD},
-    requires=[P_HANDLER, SAFE], ensures=["held[job] == None", SAFE],
+    requires=[P_HANDLER, SAFE], ensures=["held[job] == None", "not job.holds_limits", SAFE],
     before_call={("Scheduler._release_resources", 0): ["held[job] == Some(arg0)"]},
     after_call={("Scheduler._release_resources", 0): "held[job] = None"}),
  "Scheduler._reject_job_main_thread": dict(where=f"{SCHED}:Scheduler._reject_job_main_thread",
     params={"self": REF, "job": Opt(REF), "error": OBJ, "error_traceback": OBJ, "job_tags": OBJ}, ghost={"held": HELD},
     requires=["implies(job != None, " + P_HANDLER.replace("job", "val(job)") + ")", SAFE],
-    ensures=["implies(job != None, held[val(job)] == None)", SAFE],
+    ensures=["implies(job != None, held[val(job)] == None and not val(job).holds_limits)", SAFE],
     before_call={("Scheduler._release_resources", 0): ["held[val(job)] == Some(arg0)"]},
     after_call={("Scheduler._release_resources", 0): "held[val(job)] = None"}),
  "Scheduler._exec_job_main_thread": dict(where=f"{SCHED}:Scheduler._exec_job_main_thread",
     params={"self": REF, "job": REF, "eval_args": OBJ}, ghost={"held": HELD},
-    requires=["held[job] == None", SAFE], ensures=[SAFE],
+    requires=["held[job] == None", "not job.holds_limits", SAFE], ensures=[SAFE, P_HANDLER],
     before_call={("Scheduler._consume_resources", 0): ["held[job] == None", "arg0 == limits_of(job)"]},
     after_call={("Scheduler._consume_resources", 0): "held[job] = Some(arg0)"},
     at_call={"submit": ["not self._dryrun", "held[job] == Some(limits_of(job))"],
@@ -65,7 +66,7 @@ contracts = {
 }
 
 MODULE = Module(
-    fields={"limits_used": Arr(STR, INT), "limits": LIM, "_dryrun": BOOL, "was_cached": BOOL},
+    fields={"limits_used": Arr(STR, INT), "limits": LIM, "_dryrun": BOOL, "was_cached": BOOL, "holds_limits": BOOL},
     classes={"self": "Scheduler", "job": "Job"},
     ufuns={"limits_of": ([REF], LIM)},
     stable={"task": OBJ},
